@@ -519,6 +519,9 @@ pub fn run(args: &Args) {
     let items = args.read_input();
     let prop = args.opt_str("prop", "C22");
     let batch = args.opt_u64("batch", 200) as usize;
+    if args.opt_str("parens", "full") == "min" {
+        render::MIN_PARENS.store(true, std::sync::atomic::Ordering::Relaxed);
+    }
     let mut out = args.out();
     let mut pre_json: Option<Json> = None;
     for it in &items {
